@@ -153,22 +153,27 @@ Theorem stack_trace_is_include_chain : forall st, stack_trace st = include_chain
 Proof. exact stack_trace_is_chain. Qed.
 Print Assumptions stack_trace_is_include_chain.
 
-(* (2) every error is raised in a state s reached by the scan;
-   - an error of the scan loop itself (scan_err) lies in the file s reads and carries EXACTLY the
-     include chain of the scanner stack of s;
+(* (2) every error is raised in a state s reached by the scan (the iteration of scanProject's loop
+   that starts in s ends with it: scan_project .. 1 s = CErr e); it lies in the file s reads, and
+   - an error of the scan loop itself (scan_err) carries EXACTLY the include chain of the scanner
+     stack of s;
    - an error about the pending directive d lies at d's keyword and carries d's own tracer
-     (innermost first); when that is empty -- d was read outside any include -- it gets the chain of the
-     stack of s, whatever file is read then (ex_root_directive_foreign_trace in TraceProofs.v);
+     (innermost first).  d was read from the file s reads, under the stack of s: since /repo c51680e
+     the pending directive is placed before an INCLUDE is entered (and, as before, before a file is
+     left).  [Before that repair an error about a directive read outside any include could carry the
+     chain of an included file: TraceProofs.ex_root_directive_empty_trace.]
    and every entry of the trace is real: a project file, INCLUDE spelled at that offset *)
 Theorem scan_error_trace : forall jsc_len enum_len files banned root fuel content e,
   len_sane jsc_len -> len_sane enum_len -> fs_all_bytes files = true ->
   fs_stat files root = Some (FFile content) ->
   scan_project jsc_len enum_len files banned fuel (init_state root content) = CErr e ->
   exists s, scan_reach jsc_len enum_len files banned (init_state root content) s /\
+    scan_project jsc_len enum_len files banned 1 s = CErr e /\
     Forall (entry_real files root) (include_chain (cs_stack s)) /\
-    ((ce_file e = sc_file (cs_sc s) /\ ce_trace e = include_chain (cs_stack s)) \/
+    ce_file e = sc_file (cs_sc s) /\
+    (ce_trace e = include_chain (cs_stack s) \/
      (exists d, cs_cur s = Some d /\ ce_file e = c_file (d_kw d) /\ ce_idx e = c_beg (d_kw d) /\
-                ce_trace e = match d_trace d with [] => include_chain (cs_stack s) | _ => rev (d_trace d) end)) /\
+                ce_trace e = rev (d_trace d))) /\
     Forall (entry_real files root) (ce_trace e).
 Proof.
   intros jsc enum files banned root fuel content e Hj He Hb.
@@ -215,20 +220,18 @@ Proof.
 Qed.
 Print Assumptions directive_trace_is_chain.
 
-(* ... and the trace of every error is the include chain of the stack of a reachable state s that
-   reads the file the error is in (for an error about a directive: the state in which the directive
-   was read); except that an error about a directive read in the root file (the stack of s is empty)
-   carries the chain of the state in which it is raised *)
+(* ... and the trace of every error is the include chain of the stack of the state in which it is
+   raised, and the error lies in the file that state reads.  (No exception any more: before /repo
+   c51680e an error about a directive read in the root file carried the chain of the state in which
+   it was raised, possibly inside an included file.) *)
 Theorem trace_is_include_chain : forall jsc_len enum_len files banned root fuel content e,
   len_sane jsc_len -> len_sane enum_len -> fs_all_bytes files = true ->
   single_include_per_file files = true ->
   fs_stat files root = Some (FFile content) ->
   scan_project jsc_len enum_len files banned fuel (init_state root content) = CErr e ->
   exists s, scan_reach jsc_len enum_len files banned (init_state root content) s /\
-    ce_file e = sc_file (cs_sc s) /\
-    (ce_trace e = include_chain (cs_stack s) \/
-     (cs_stack s = [] /\ exists s', scan_reach jsc_len enum_len files banned (init_state root content) s' /\
-                                    ce_trace e = include_chain (cs_stack s'))) /\
+    scan_project jsc_len enum_len files banned 1 s = CErr e /\
+    ce_file e = sc_file (cs_sc s) /\ ce_trace e = include_chain (cs_stack s) /\
     Forall (entry_real files root) (ce_trace e).
 Proof.
   intros jsc enum files banned root fuel content e Hj He Hb Hs.
@@ -262,10 +265,7 @@ Theorem trace_is_include_chain_two_includes_refuted :
     fs_stat files root = Some (FFile content) /\
     scan_project ex_len ex_len files [] fuel (init_state root content) = CErr e /\
     ~ exists s, scan_reach ex_len ex_len files [] (init_state root content) s /\
-        ce_file e = sc_file (cs_sc s) /\
-        (ce_trace e = include_chain (cs_stack s) \/
-         (cs_stack s = [] /\ exists s', scan_reach ex_len ex_len files [] (init_state root content) s' /\
-                                        ce_trace e = include_chain (cs_stack s'))).
+        ce_file e = sc_file (cs_sc s) /\ ce_trace e = include_chain (cs_stack s).
 Proof. exact trace_is_include_chain_two_includes_refuted_lemma. Qed.
 Print Assumptions trace_is_include_chain_two_includes_refuted.
 
